@@ -1,5 +1,6 @@
 /- C07 — helper lemmas: the pretty helpers only add or remove whitespace. -/
 import SqlglotModel.Model.Pretty
+import SqlglotModel.Model.Gen
 
 namespace SqlglotModel.Pretty
 
@@ -171,5 +172,171 @@ theorem length_le_expand (s : Str) : s.length ≤ (expand s).length := by
     · have : SENTINEL.length = 15 := by decide
       simp only [List.length_append, List.length_cons, this]; omega
     · simp only [List.length_cons]; omega
+
+end SqlglotModel.Pretty
+
+namespace SqlglotModel.Pretty
+
+/-! ### `expressions` only moves whitespace -/
+
+theorem stripWs_joinAll (ls : List Str) : stripWs (joinAll ls) = flat ls := by
+  induction ls with
+  | nil => rfl
+  | cons l rest ih => simp [joinAll, flat, stripWs_append, ih]
+
+theorem flat_map_rstrip (ls : List Str) : flat (ls.map rstrip) = flat ls := by
+  induction ls with
+  | nil => rfl
+  | cons l rest ih => simp [flat, stripWs_rstrip, ih]
+
+theorem flat_append (a b : List Str) : flat (a ++ b) = flat a ++ flat b := by
+  induction a with
+  | nil => rfl
+  | cons l rest ih => simp [flat, ih]
+
+/-- the whitespace-free content of an `expressions` call: items with prefix, separated by the separator -/
+def body (sepS pre : Str) : List Str → Str
+  | [] => []
+  | [s] => stripWs pre ++ stripWs s
+  | s :: t :: rest => stripWs pre ++ stripWs s ++ stripWs sepS ++ body sepS pre (t :: rest)
+
+/-- trailing-separator style (plain, or pretty without leading_comma) -/
+theorem flat_exprItems_trailing (o : Opts) (h : (o.pretty && o.leadingComma) = false) (sepS pre : Str) (items : List Str)
+    (hne : ∀ s ∈ items, s ≠ []) : ∀ i n, i + items.length = n →
+      flat (exprItems o sepS pre n i items) = body sepS pre items := by
+  induction items with
+  | nil => intro i n _; rfl
+  | cons s rest ih =>
+    intro i n hn
+    have hs : s.isEmpty = false := by
+      have := hne s (List.mem_cons_self ..)
+      cases s <;> simp_all
+    simp only [exprItems, hs, h, Bool.false_eq_true, if_false, flat]
+    rw [ih (fun x hx => hne x (List.mem_cons_of_mem _ hx)) (i + 1) n (by simp at hn; omega)]
+    cases rest with
+    | nil =>
+      have : ¬ (i + 1 < n) := by simp at hn; omega
+      simp [flat, body, this, stripWs_append]
+    | cons t rest' =>
+      have : i + 1 < n := by simp at hn; omega
+      simp [flat, body, this, stripWs_append]
+
+/-- leading-comma style -/
+theorem flat_exprItems_leading (o : Opts) (h : (o.pretty && o.leadingComma) = true) (sepS pre : Str) (items : List Str)
+    (hne : ∀ s ∈ items, s ≠ []) : ∀ i n,
+      flat (exprItems o sepS pre n i items)
+        = (if i > 0 ∧ items ≠ [] then stripWs sepS else []) ++ body sepS pre items := by
+  induction items with
+  | nil => intro i n; simp [exprItems, flat, body]
+  | cons s rest ih =>
+    intro i n
+    have hs : s.isEmpty = false := by
+      have := hne s (List.mem_cons_self ..)
+      cases s <;> simp_all
+    simp only [exprItems, hs, h, if_true, Bool.false_eq_true, if_false]
+    rw [flat, ih (fun x hx => hne x (List.mem_cons_of_mem _ hx)) (i + 1) n]
+    cases rest with
+    | nil =>
+      by_cases hi : i > 0 <;> simp [body, hi, stripWs_append]
+    | cons t rest' =>
+      by_cases hi : i > 0 <;> simp [body, hi, stripWs_append]
+
+/-- content of the non-flat path, whatever the options -/
+theorem stripWs_expressions_nonflat (o : Opts) (items : List Str) (hne : ∀ s ∈ items, s ≠ []) (hi : items ≠ [])
+    (doIndent sf sl : Bool) (sepS pre : Str) (dynamic newLine : Bool) :
+    stripWs (expressions o items false doIndent sf sl sepS pre dynamic newLine) = body sepS pre items := by
+  have hfl : flat (exprItems o sepS pre items.length 0 items) = body sepS pre items := by
+    cases h : (o.pretty && o.leadingComma)
+    · exact flat_exprItems_trailing o h sepS pre items hne 0 items.length (by omega)
+    · rw [flat_exprItems_leading o h sepS pre items hne 0 items.length]; simp
+  have hie : items.isEmpty = false := by cases items <;> simp_all
+  simp only [expressions, hie, Bool.false_eq_true, if_false]
+  have inner : stripWs (if o.pretty && (!dynamic || tooWide o (exprItems o sepS pre items.length 0 items)) then
+        joinNl ((if newLine then [[]] ++ exprItems o sepS pre items.length 0 items ++ [[]]
+                 else exprItems o sepS pre items.length 0 items).map rstrip)
+       else joinAll (exprItems o sepS pre items.length 0 items)) = body sepS pre items := by
+    split
+    · rw [stripWs_joinNl, flat_map_rstrip]
+      split
+      · simp [flat_append, flat, hfl, stripWs]
+      · exact hfl
+    · rw [stripWs_joinAll, hfl]
+  split
+  · rw [stripWs_indent]; exact inner
+  · exact inner
+
+/-! ### the sentinel never survives `generate()` -/
+
+theorem isPrefix_replaceF (p : Str) (hp : '\n' ∉ p) : ∀ (f : Nat) (s : Str), s.length ≤ f →
+    isPrefix p (replaceF SENTINEL ['\n'] (f + 1) s) = true → isPrefix p s = true := by
+  induction p with
+  | nil => intro f s _ _; simp [isPrefix]
+  | cons a p' ih =>
+    intro f s hf h
+    have ha : a ≠ '\n' := fun e => hp (e ▸ List.mem_cons_self ..)
+    have hp' : '\n' ∉ p' := fun e => hp (List.mem_cons_of_mem _ e)
+    cases s with
+    | nil => simp [replaceF, isPrefix] at h
+    | cons c cs =>
+      simp only [List.length_cons] at hf
+      obtain ⟨f', rfl⟩ : ∃ f', f = f' + 1 := ⟨f - 1, by omega⟩
+      simp only [replaceF] at h
+      split at h
+      · simp [isPrefix, ha] at h
+      · simp only [isPrefix, Bool.and_eq_true, decide_eq_true_eq] at h ⊢
+        exact ⟨h.1, ih hp' f' cs (by omega) h.2⟩
+
+theorem sentinel_no_nl : '\n' ∉ SENTINEL := by decide
+
+theorem no_sentinel_after_replace : ∀ (f : Nat) (s : Str), s.length ≤ f → ∀ k,
+    isPrefix SENTINEL ((replaceF SENTINEL ['\n'] (f + 1) s).drop k) = false := by
+  intro f
+  induction f with
+  | zero =>
+    intro s hf k
+    have : s = [] := by cases s <;> simp_all
+    subst this
+    simp [replaceF, isPrefix, SENTINEL]
+  | succ f' ih =>
+    intro s hf k
+    cases s with
+    | nil => simp [replaceF, isPrefix, SENTINEL]
+    | cons c cs =>
+      simp only [List.length_cons] at hf
+      by_cases hm : isPrefix SENTINEL (c :: cs) = true
+      · have hun : replaceF SENTINEL ['\n'] (f' + 1 + 1) (c :: cs)
+            = '\n' :: replaceF SENTINEL ['\n'] (f' + 1) ((c :: cs).drop SENTINEL.length) := by
+          simp [replaceF, hm]
+        rw [hun]
+        cases k with
+        | zero => simp [isPrefix, SENTINEL]
+        | succ k' =>
+          simp only [List.drop_succ_cons]
+          have hl : SENTINEL.length = 15 := by decide
+          exact ih _ (by simp only [List.length_drop, List.length_cons, hl]; omega) k'
+      · have hun : replaceF SENTINEL ['\n'] (f' + 1 + 1) (c :: cs) = c :: replaceF SENTINEL ['\n'] (f' + 1) cs := by
+          simp [replaceF, hm]
+        cases k with
+        | zero =>
+          simp only [List.drop_zero]
+          cases hh : isPrefix SENTINEL (replaceF SENTINEL ['\n'] (f' + 1 + 1) (c :: cs)) with
+          | false => rfl
+          | true =>
+            exact absurd (isPrefix_replaceF SENTINEL sentinel_no_nl (f' + 1) (c :: cs) (by simp; omega) hh) hm
+        | succ k' =>
+          rw [hun]
+          simp only [List.drop_succ_cons]
+          exact ih cs (by omega) k'
+
+end SqlglotModel.Pretty
+
+namespace SqlglotModel.Pretty
+
+/-- Doc rendering of the C01 printer's pieces: every soft break `sp` rendered as the whitespace string `ws i` -/
+def renderDoc (tbl : SqlglotModel.Expr.Tables) (ws : Nat → Str) : Nat → List SqlglotModel.Gen.Piece → Str
+  | _, [] => []
+  | i, .t k :: ps => (SqlglotModel.Gen.printTok tbl k).toList ++ renderDoc tbl ws (i + 1) ps
+  | i, .sp :: ps => ws i ++ renderDoc tbl ws (i + 1) ps
+
 
 end SqlglotModel.Pretty
